@@ -42,6 +42,10 @@ func scriptCoq(sc []step) string {
 			xs[i] = "SPause"
 		case "await":
 			xs[i] = "SAwaitReturn"
+		case "slow_open":
+			xs[i] = emit.App("SSlowOpen", emit.Nat(s.r))
+		case "slow_finish":
+			xs[i] = emit.App("SSlowFinish", emit.Nat(s.r))
 		default:
 			panic("unknown step " + s.op)
 		}
@@ -53,7 +57,7 @@ func scriptString(sc []step) string {
 	xs := make([]string, len(sc))
 	for i, s := range sc {
 		switch s.op {
-		case "launch", "release", "late":
+		case "launch", "release", "late", "slow_open", "slow_finish":
 			xs[i] = fmt.Sprintf("%s %d", s.op, s.r)
 		default:
 			xs[i] = s.op
@@ -206,6 +210,20 @@ func randomScript(r *rng.R, n int) []step {
 	return finish(body)
 }
 
+func midString(s *scenario) string {
+	var ids []int
+	for id, on := range s.mid {
+		if on {
+			ids = append(ids, id)
+		}
+	}
+	sort.Ints(ids)
+	if len(ids) == 0 {
+		return ""
+	}
+	return fmt.Sprint(ids)
+}
+
 func h2cString(s *scenario) string {
 	var ids []int
 	for id, on := range s.h2c {
@@ -240,17 +258,26 @@ func main() {
 	var groups []*group
 	groupOf := map[int]string{}
 	mk := func(fl string, held, keep bool, sc []step, tag string) *scenario {
-		s := &scenario{flavor: fl, portHeld: held, keepalive: keep, script: sc, tag: tag, sizes: map[int]int{}, split: map[int]bool{}, h2c: map[int]bool{}}
+		s := &scenario{flavor: fl, portHeld: held, keepalive: keep, script: sc, tag: tag, sizes: map[int]int{}, split: map[int]bool{}, h2c: map[int]bool{}, mid: map[int]bool{}, ctxKind: "cancel"}
 		for _, st := range sc {
-			if st.op == "launch" || st.op == "late" {
+			if st.op == "launch" || st.op == "late" || st.op == "slow_open" {
 				s.sizes[st.r] = sizes[r.Intn(len(sizes))]
 				s.split[st.r] = r.Chance(1, 3)
 			}
 			if st.op == "launch" {
 				s.h2c[st.r] = r.Chance(1, 4)
+				s.mid[st.r] = r.Chance(1, 3)
 			}
 		}
 		s.ctxAware = r.Chance(2, 3)
+		switch k := r.Intn(8); {
+		case k < 2:
+			s.ctxKind = "dl_expire"
+		case k == 2:
+			s.ctxKind = "dl_child"
+		case k == 3:
+			s.ctxKind = "dl_cancel"
+		}
 		scs = append(scs, s)
 		return s
 	}
@@ -380,6 +407,26 @@ func main() {
 		}
 	}
 
+	// ---- corpus: requests held in a user middleware at the cancellation; slow request heads; deadlines ----
+	SO := func(i int) step { return step{"slow_open", i} }
+	SF := func(i int) step { return step{"slow_finish", i} }
+	for _, fl := range flavors {
+		for k, kind := range []string{"cancel", "dl_expire", "dl_child", "dl_cancel"} {
+			sn := add(fl, false, k%2 == 1, finish([]step{L(0), C, P, R(0)}), "corpus_mid_deadline")
+			sn.mid[0], sn.ctxKind = true, kind
+			sn = add(fl, false, false, finish([]step{L(0), L(1), R(0), C, P, U, R(1)}), "corpus_mid_deadline")
+			sn.mid[0], sn.mid[1], sn.ctxKind = k%2 == 0, true, kind
+			sn = add(fl, false, k%2 == 0, finish([]step{L(0), L(1), C, P, R(1), R(0)}), "corpus_mid_deadline")
+			sn.mid[0], sn.mid[1], sn.ctxKind = false, false, kind
+			// the request head is still being received at the cancellation: not "already being handled";
+			// it must be served in full or not at all
+			sn = add(fl, false, false, finish([]step{L(0), SO(60), C, P, SF(60), R(0)}), "corpus_slow_head")
+			sn.ctxKind = kind
+			sn = add(fl, false, false, finish([]step{SO(60), SO(61), C, SF(61), SF(60)}), "corpus_slow_head")
+			sn.ctxKind = kind
+		}
+	}
+
 	// ---- one runner func, several servers ----
 	G := func(srv int, st step) gstep { return gstep{srv, st} }
 	S := step{"start", 0}
@@ -450,7 +497,21 @@ func main() {
 		}
 		sc := randomScript(r, n)
 		inflight := inFlightAtCancel(sc)
-		sn := add(flavors[r.Intn(3)], false, r.Chance(1, 3), decorate(sc, inflight > 0 && r.Chance(1, 6), r.Chance(1, 6)), "random")
+		dsc := decorate(sc, inflight > 0 && r.Chance(1, 6), r.Chance(1, 6))
+		if r.Chance(1, 5) {
+			var with []step
+			for _, st := range dsc {
+				if st.op == "cancel" {
+					with = append(with, step{"slow_open", 60})
+				}
+				if st.op == "await" {
+					with = append(with, step{"slow_finish", 60})
+				}
+				with = append(with, st)
+			}
+			dsc = with
+		}
+		sn := add(flavors[r.Intn(3)], false, r.Chance(1, 3), dsc, "random")
 		if r.Chance(1, 4) {
 			withCfg(sn, timeoutCfgs[r.Intn(len(timeoutCfgs))])
 		}
@@ -509,7 +570,7 @@ func main() {
 
 	retries, stallRetries := 0, 0
 	for i, s := range scs {
-		canon := fmt.Sprintf("%s|%v|%v|%s|%s", s.flavor, s.portHeld, s.keepalive, scriptString(s.script), s.cfgString()) + h2cString(s) + groupOf[i]
+		canon := fmt.Sprintf("%s|%v|%v|%s|%s", s.flavor, s.portHeld, s.keepalive, scriptString(s.script), s.cfgString()) + h2cString(s) + "|" + midString(s) + groupOf[i]
 		inflight := inFlightAtCancel(s.script)
 		nontrivial := inflight > 0 || s.portHeld || s.script[0].op == "cancel"
 		res := results[i]
@@ -537,7 +598,7 @@ func main() {
 		}
 		js := map[string]interface{}{
 			"router": s.flavor, "port_held": s.portHeld, "keepalive": s.keepalive, "script": scriptString(s.script),
-			"bodies": strings.Join(bodies, " "), "in_flight_at_cancel": inflight, "config": s.cfgString(), "h2c_upgrade_clients": h2cString(s), "group": groupOf[i],
+			"bodies": strings.Join(bodies, " "), "in_flight_at_cancel": inflight, "config": s.cfgString(), "h2c_upgrade_clients": h2cString(s), "held_in_middleware": midString(s), "group": groupOf[i],
 			"observed": map[string]interface{}{"trace": strings.Join(evjs, " "), "runner_error": res.errText, "notes": res.notes, "clients": res.clients},
 		}
 		w.Count("router:" + s.flavor)
@@ -555,6 +616,10 @@ func main() {
 		if h2cString(s) != "" {
 			w.Count("with_h2c_upgrade_clients")
 		}
+		if midString(s) != "" {
+			w.Count("with_requests_held_in_middleware")
+		}
+		w.Count("ctx:" + s.ctxKind)
 		if groupOf[i] != "" {
 			w.Count("shared_runner_func")
 		}
@@ -572,7 +637,7 @@ func main() {
 	w.Meta["port_retries_address_in_use"] = retries
 	w.Meta["scenarios_rerun_after_expired_wait"] = stallRetries
 	w.Meta["exhaustive_bound"] = exhaustiveBound
-	w.Close("real server.RunServer / gin Run (lura's engine and endpoint handler) / mux Run (lura's endpoint handler) on 127.0.0.1; a quarter of the scripted requests come from raw-socket clients offering the h2c upgrade; groups of 2-3 servers driven by one runner func with independent contexts (each server one case); two thirds of the handlers / stub proxies follow their request context as lura's pipes do; ServiceConfig idle/read/read_header timeouts of 30-80 ms alone and combined (write timeout large next to gated answers) with in-flight handlers held past them; corpus (in flight at cancel with early-return window, refusal while handlers run, 32 in flight with large half-written bodies, cancel before start, port held) + "+exhaustiveBound+" + random scripts with up to 32 requests + repeated listener-failure/early-cancel races; compared: imposed order, trace inclusion in the model, graceful_b; nontrivial = a request in flight at the cancellation, port held or cancelled before start", true)
+	w.Close("real server.RunServer / gin Run (lura's engine and endpoint handler) / mux Run (lura's endpoint handler) on 127.0.0.1; a quarter of the scripted requests come from raw-socket clients offering the h2c upgrade; a third are held by a gated user middleware (Config.Middlewares) before the endpoint handler; raw clients whose request head is completed only after the cancellation; the runner's context is WithCancel, a hand-cancelled WithTimeout, a WithTimeout that expires at the cancel step, or a child of one; groups of 2-3 servers driven by one runner func with independent contexts (each server one case); two thirds of the handlers / stub proxies follow their request context as lura's pipes do; ServiceConfig idle/read/read_header timeouts of 30-80 ms alone and combined (write timeout large next to gated answers) with in-flight handlers held past them; corpus (in flight at cancel with early-return window, refusal while handlers run, 32 in flight with large half-written bodies, cancel before start, port held) + "+exhaustiveBound+" + random scripts with up to 32 requests + repeated listener-failure/early-cancel races; compared: imposed order, trace inclusion in the model, graceful_b; nontrivial = a request in flight at the cancellation, port held or cancelled before start", true)
 	if len(scs) == 0 {
 		os.Exit(1)
 	}
